@@ -619,6 +619,45 @@ def cleanup_root(root):
         shutil.rmtree(d, ignore_errors=True)
 
 
+def start_operator(pauses, slow_wake_p=0.0):
+    """The operator of scripts/elaunch.py (pause / live-patch signals), as a simulated thread: at each seeded virtual time
+    it puts the current controller to sleep, waits until the scheduler reports that it sleeps (bounded), stays paused for
+    the given time and wakes it up. pauses = [[start, duration], ...]"""
+    import threading
+
+    def run():
+        t0 = simk.K.clock
+        for (start, dur) in sorted(pauses):
+            left = t0 + start - simk.K.clock
+            if left > 0:
+                simk.sim_sleep(left)
+            c = CTX.controller
+            if c is None:
+                continue
+            REC.ev('operator-pause', None, {'for': dur})
+            REC.count('fault.operator_pause')
+            c.sleep()
+            for _ in range(30):
+                if c.is_sleeping:
+                    break
+                simk.sim_sleep(1.0)
+            simk.sim_sleep(dur)
+            c = CTX.controller or c
+            me = simk.K.cur()
+            if slow_wake_p:
+                me._stall_p = slow_wake_p  # a slow operator thread: stalls between the steps of wake_up()
+            try:
+                c.wake_up()
+            finally:
+                me._stall_p = None
+            REC.ev('operator-wake', None, None)
+
+    t = threading.Thread(target=run, name='Operator')
+    t.daemon = True
+    t.start()
+    return t
+
+
 def states_of(controller):
     out = {}
     for n in controller.graph.nodes:
